@@ -155,7 +155,9 @@ func (g *grpcHandler) NewConn(
 	header := responseWriter.Header()
 	header[headerContentType] = []string{request.Header.Get(headerContentType)}
 	header[grpcHeaderAcceptCompression] = []string{g.CompressionPools.CommaSeparatedNames()}
-	if responseCompression != compressionIdentity {
+	if responseCompression != "" && responseCompression != compressionIdentity {
+		// (Empty when negotiation failed: the rejection must not go out with an
+		// encoding header that names nothing.)
 		header[grpcHeaderCompression] = []string{responseCompression}
 	}
 
